@@ -97,11 +97,46 @@ def extract():
                 return n.value.value
         raise TranslateError("coordconsts: %s.and_conj does not return a literal" % cls)
 
+    def defaults(fname, cls):
+        f = _func(_src(fname), cls, "defaultProps")
+        for n in ast.walk(f):
+            if isinstance(n, ast.Return) and isinstance(n.value, ast.Dict):
+                d = {k.value: v.value for k, v in zip(n.value.keys, n.value.values)
+                     if isinstance(k, ast.Constant) and isinstance(v, ast.Constant)}
+                if {"g", "n", "pe"} <= set(d):
+                    return d
+        raise TranslateError("coordconsts: %s.defaultProps does not return a literal dict with g, n, pe" % cls)
+
     return {
+        "defEn": defaults("ConstituentEn.py", "ConstituentEn"), "defFr": defaults("ConstituentFr.py", "ConstituentFr"),
         "table": table, "cpNoProp": excl["CP"], "coordNoProp": excl["coord"],
         "cpCounted": counted("Phrase.py", "Phrase"), "coordCounted": counted("Dependent.py", "Dependent"),
         "andEn": andconj("NonTerminalEn.py", "NonTerminalEn"), "andFr": andconj("NonTerminalFr.py", "NonTerminalFr"),
     }
+
+
+def pronoun_entries():
+    """every Pro entry of both lexicons with the person/number/gender columns of its declension table"""
+    import json
+    res = []
+    d = os.path.join(core.REPO, "src", "pyrealb", "data")
+    for lang in ("en", "fr"):
+        try:
+            lex = json.load(open(os.path.join(d, "lexicon-%s.json" % lang), encoding="utf-8"))
+            decl = json.load(open(os.path.join(d, "rules-%s.json" % lang), encoding="utf-8"))["declension"]
+        except (OSError, KeyError, ValueError) as e:
+            raise TranslateError("coordconsts: cannot read the %s lexicon/rules: %s" % (lang, e))
+        for lemma in sorted(lex):
+            e = lex[lemma].get("Pro") if isinstance(lex[lemma], dict) else None
+            if e is None:
+                continue
+            tab = e.get("tab")
+            rows = decl.get(tab, {}).get("declension", [])
+            res.append({"lang": lang, "lemma": lemma, "tab": tab or "", "pe": e.get("pe"), "n": e.get("n"), "g": e.get("g"),
+                        "rows": [(r.get("pe"), r.get("n"), r.get("g")) for r in rows]})
+    if len(res) < 50:
+        raise TranslateError("coordconsts: only %d pronoun entries found" % len(res))
+    return res
 
 
 def _chars(x):
@@ -140,6 +175,43 @@ def generate():
     out.append("def coordCounted : List Str := %s" % _strlist(d["coordCounted"]))
     out.append("def andEn : Str := %s" % _chars(d["andEn"]))
     out.append("def andFr : Str := %s" % _chars(d["andFr"]))
+    out.append("/-- `defaultProps()` of ConstituentEn / ConstituentFr: (g, n, pe) -/")
+    for nm, dd in (("En", d["defEn"]), ("Fr", d["defFr"])):
+        if not isinstance(dd["pe"], int):
+            raise TranslateError("coordconsts: default pe is not an int")
+        out.append("def default%s : Str × Str × Nat := (%s, %s, %d)" % (nm, _chars(dd["g"]), _chars(dd["n"]), dd["pe"]))
+
+    def ostr(x):
+        return "none" if x is None else "some %s" % _chars(str(x))
+
+    def onat(x):
+        if x is None:
+            return "none"
+        if not isinstance(x, int) or isinstance(x, bool) or x < 0:
+            raise TranslateError("coordconsts: person %r is not a natural number" % (x,))
+        return "some %d" % x
+    out.append("")
+    out.append("/-- a `Pro` entry of a lexicon: the features it carries, and the (pe, n, g) columns of its declension table -/")
+    out.append("structure ProEntry where")
+    out.append("  lang : Str")
+    out.append("  lemma : Str")
+    out.append("  tab : Str")
+    out.append("  pe : Option Nat")
+    out.append("  n : Option Str")
+    out.append("  g : Option Str")
+    out.append("  rows : List (Option Nat × Option Str × Option Str)")
+    out.append("  deriving DecidableEq, Repr")
+    out.append("")
+    names = []
+    for i, e in enumerate(pronoun_entries()):
+        nm = "pro_%s_%d" % (e["lang"], i)
+        names.append(nm)
+        rows = ", ".join("(%s, %s, %s)" % (onat(a), ostr(b), ostr(c)) for a, b, c in e["rows"])
+        out.append("def %s : ProEntry := ProEntry.mk %s %s %s (%s) (%s) (%s) [%s]" % (
+            nm, _chars(e["lang"]), _chars(e["lemma"]), _chars(e["tab"]), onat(e["pe"]), ostr(e["n"]), ostr(e["g"]), rows))
+    out.append("")
+    out.append("/-- every `Pro` entry of lexicon-en.json and lexicon-fr.json -/")
+    out.append("def proEntries : List ProEntry := [%s]" % ", ".join(names))
     out.append("")
     out.append("end Pyrealb.Gen.CoordConsts")
     return {"Pyrealb/Gen/CoordConsts.lean": "\n".join(out) + "\n"}
